@@ -19,6 +19,7 @@ import time
 sys.path.insert(0, os.path.dirname(__file__))
 import kani_run  # noqa: E402
 import verus_run  # noqa: E402
+import mutants  # noqa: E402
 import props as P  # noqa: E402
 
 VERIF = os.path.dirname(os.path.dirname(os.path.abspath(__file__)))
@@ -107,7 +108,7 @@ def run(prop, tier, seed):
     scratch = tempfile.mkdtemp(prefix='asca-verif-%s-' % prop)
     ev = dict(property_id=prop, tier=tier, seed=seed, level=cfg['level'], coverage={}, assumptions=[], wall_s=0.0, violations=0)
     undecided, violations, known_hits, stale, also_failed = [], [], [], [], []
-    verus_results, kani_results = [], []
+    verus_results, kani_results, mutant_results = [], [], []
     try:
         # ---------------- Verus kernels
         vdir = os.path.join(scratch, 'verus')
@@ -227,12 +228,20 @@ def run(prop, tier, seed):
                 if any(v['with_input'] for v in violations):
                     also_failed.append(dict(obligation=ob, checks=[fo['message']], backend='verus/z3'))
                     continue
+                if any(v['obligation'] == ob for v in violations):
+                    continue   # same named obligation failing at several sites: one alarm
                 rp = os.path.join(VERIF, 'replay', '%s-%s.json' % (prop, ob.replace('/', '_')))
                 write_json(rp, dict(property=prop, obligation=ob, backend='verus/z3', kernel=vr['kernel'], function=fo['function'],
                                     message=fo['message'], verifier_output=fo['rendered'], emitted_line=fo['line'], text=fo['text'],
                                     note='Verus gives no model; no Kani harness covering this clause produced a failing input',
                                     rerun='cd /verif && python3 engine/verus_run.py %s' % vr['kernel']))
                 violations.append(dict(obligation=ob, replay=rp, note=fo['message'], with_input=False))
+        # ---------------- power check (thorough tier, scratch copies only)
+        if tier == 'thorough' and not violations and all(r['status'] == 'ok' for r in verus_results):
+            mutant_results = mutants.run_for_kernels(set(kernels), REPO)
+            for m in mutant_results:
+                if m['outcome'] == 'SURVIVED':
+                    undecided.append('weak contract: mutant %s of kernel %s survives' % (m['id'], m['kernel']))
     finally:
         shutil.rmtree(scratch, ignore_errors=True)
 
@@ -271,6 +280,7 @@ def run(prop, tier, seed):
                                   covers_total=len(r.get('covers', [])), stubs=r.get('stubs', []), functions=r['meta']['pair'], clause=r['meta']['clause'],
                                   failed_checks=r['failed_checks'][:5], replay=r.get('replay')) for r in kani_results]),
         bounded=[dict(harness=r['harness'], bound=r['meta']['bound'], status=r['status'], note='bounded stand-in: NOT counted under obligations/discharged') for r in b_h],
+        mutant_power_check=dict(run=len(mutant_results), killed=sum(1 for m in mutant_results if m['outcome'] == 'killed'), results=mutant_results) if mutant_results else None,
         proof_script_stale=stale, undecided=undecided, also_failed_not_replayed=also_failed,
         known_findings_hit=[dict(id=k['id'], obligation=k['obligation'], what=k['what'], note='fails exactly as recorded in known_findings.json; excluded from obligations/discharged') for k, _ in known_hits],
         not_decided_by_this_check=cfg.get('glue', []),
